@@ -65,7 +65,14 @@ package checks
 //@ func nonRemovedEntries [C20]
 //@   ensures forall k int :: 0 <= k && k < len(dst) ==> dst[k].State != discovery.Removed && dst[k].PathError == nil && dst[k].Rule.Error.Err == nil
 //@   ensures len(dst) <= len(src)
+// ... and every such entry counts: nothing else is filtered out
+//@   ensures forall i int :: 0 <= i && i < len(src) && src[i].State != discovery.Removed && src[i].PathError == nil && src[i].Rule.Error.Err == nil ==>
+//@              (exists k int :: 0 <= k && k < len(dst) && dst[k] == src[i])
 //@   loop 1 invariant 0 <= iter && iter <= len(src) && len(dst) <= iter
+//@   loop 1 invariant forall i int :: 0 <= i && i < iter && src[i].State != discovery.Removed && src[i].PathError == nil && src[i].Rule.Error.Err == nil ==>
+//@              (exists k int :: 0 <= k && k < len(dst) && dst[k] == src[i])
+//@   loop 1 invariant forall i int :: 0 <= i && i < len(src) ==> src[i] == old(src[i])
+//@   loop 1 invariant fresh(dst)
 //@   loop 1 invariant forall k int :: 0 <= k && k < len(dst) ==> dst[k].State != discovery.Removed && dst[k].PathError == nil && dst[k].Rule.Error.Err == nil
 
 // The check itself: at most one warning, on the removed rule, exactly when some remaining rule depends on it
